@@ -236,3 +236,13 @@ Theorem c05_tie_validate : forall c v acks mo, c_idem c = true -> is_at_least v 
    idem_cfg c = true /\ acks = -1 /\ mo <= 1).
 Proof. exact tie_validate. Qed.
 Print Assumptions c05_tie_validate.
+
+(* ProducerMessage.clear (regenerated from async_producer.go, golden Gen.DecC05) makes a message handed back to the
+   application the fresh message the composition's CSubmit puts in: no sequence number, hasSequence = false, retries 0,
+   flags 0. An application that sends a returned object again is therefore covered by the theorems above *)
+Theorem c05_returned_message_is_fresh : forall m,
+  cleared m = fresh_of m /\
+  m_hasseq (cleared m) = false /\ m_seq (cleared m) = 0 /\ m_epoch (cleared m) = 0 /\ m_retries (cleared m) = 0%nat /\ m_flags (cleared m) = F_DATA /\
+  fresh_pass (cleared m) = true /\ is_data (cleared m) = true.
+Proof. exact tie_clear. Qed.
+Print Assumptions c05_returned_message_is_fresh.
